@@ -19,7 +19,7 @@ type Ident struct {
 }
 
 var bareNames = []string{"a", "b", "c", "d", "e", "f", "g", "x1", "y_2", "Name", "VALUE", "é", "naïve", "col_é", "日本", "rowid", "oid", "_rowid_", "Ab", "data", "ü", "ñ1", "Ωmega", "ÉCOLE", "ж"}
-var quotedNames = []string{"select", "my col", "a\"b", "from", "a]b", "x`y", "tab,le", "1st", "é é", "primary", "key", "(", "a'b", "", "x.y", "--c"}
+var quotedNames = []string{"select", "my col", "a\"b", "from", "a]b", "x`y", "tab,le", "1st", "é é", "primary", "key", "(", "a'b", "", "x.y", "--c", "q\"", "tick`", "\"\"", "end]x", "it's"}
 
 func quote(name string, style int) string {
 	switch style {
@@ -241,6 +241,9 @@ func GenTable(t *rapid.T, name Ident, o Opts) Table {
 			cons = append(cons, s)
 		}
 		k := rapid.IntRange(0, 3).Draw(t, "ncons")
+		if rapid.IntRange(0, 9).Draw(t, "manycons") == 0 {
+			k = rapid.IntRange(4, 7).Draw(t, "ncons2")
+		}
 		if rapid.IntRange(0, 3).Draw(t, "plaincol") == 0 {
 			// plain columns (name only) are common in real schemas
 			c.Type, k = "", 0
